@@ -5,3 +5,4 @@ import ReuseVerif.Theorems.C17
 import ReuseVerif.Theorems.C04
 import ReuseVerif.Theorems.C03
 import ReuseVerif.Theorems.C11
+import ReuseVerif.Theorems.C15
